@@ -261,13 +261,17 @@ func (e *Engine) Shutdown() error {
 	return Guard(e.Sess.Close)
 }
 
-// Crash is process death: every store is abandoned without flushing.
-func (e *Engine) Crash() {
+// Crash is process death of this engine: its store is abandoned without
+// flushing. Stores the session leaked (a USE that did not close the previous
+// one) die with the process too when all is set.
+func (e *Engine) Crash(all bool) {
 	if e.Sess.RelationService != nil {
 		e.Sess.RelationService.VerifAbandon()
 		e.Sess.RelationService = nil
 	}
-	storage.VerifAbandonAll()
+	if all {
+		storage.VerifAbandonAll()
+	}
 }
 
 // CopyDataDir copies <src>/data to <dst>/data (crash image).
